@@ -7,6 +7,7 @@ package main
 // the counterexample execution predicts.
 
 import (
+	"go/ast"
 	"bytes"
 	"context"
 	"encoding/json"
@@ -534,7 +535,10 @@ func tryReplay(p *Prog, o *Obligation, rf *ReplayFile, repo string) {
 				diffs = append(diffs, fmt.Sprintf("result %d: counterexample predicts %s, real code returned %s", i, pv, obs[i]))
 			}
 		}
-		if match {
+		if match && !clauseOverInputsAndResults(p, o) {
+			// equal results say nothing about a clause over ghost state or the post-heap
+			rf.Note = "the real function returns the results of the counterexample execution, but the clause also speaks about ghost or heap state the replay does not observe: not confirmed"
+		} else if match {
 			rf.Confirmed = true
 			rf.Note = "the real function, run on the model's input, returns exactly the results of the counterexample execution, which violate the clause"
 		} else {
@@ -652,4 +656,78 @@ func runOverlayTestNamed(repo, rel, testSrc, runPat string, timeoutS int) (strin
 	cmd.Stderr = &out
 	err = cmd.Run()
 	return out.String(), err
+}
+
+var pureBuiltins = map[string]bool{"len": true, "string": true, "bytes": true, "cat": true, "sub": true, "from": true, "idx": true, "idxfrom": true,
+	"hasPrefix": true, "hasSuffix": true, "contains": true, "imp": true, "iff": true, "ite": true, "dec": true, "atoi": true, "isint": true,
+	"isdigits": true, "chr": true, "code": true, "noSOH": true, "isnil": true, "errconst": true}
+
+// clauseOverInputsAndResults: the clause mentions only parameters, results, constants
+// and pure functions of them (no field selection, no ghost variable, no heap-reading
+// spec function, no old()). Only then do matching results confirm a violation.
+func clauseOverInputsAndResults(p *Prog, o *Obligation) bool {
+	if o.Clause == nil || o.Ex == nil || o.Ex.fc == nil {
+		return false
+	}
+	fc := o.Ex.fc
+	names := map[string]bool{"nil": true, "true": true, "false": true, "SOH": true, "nilbytes": true, "result": true}
+	for _, q := range fc.Params {
+		names[q.Name] = true
+	}
+	for _, q := range fc.Results {
+		names[q.Name] = true
+	}
+	for _, w := range fc.Witness {
+		_ = w
+	}
+	ok := true
+	var pureSpec func(name string, depth int) bool
+	var walk func(n ast.Node, depth int)
+	pureSpec = func(name string, depth int) bool {
+		sf := p.CS.Specs[name]
+		if sf == nil || sf.Heap || sf.Opaque || len(sf.Reads) > 0 || sf.Body == nil || depth > 6 {
+			return false
+		}
+		inner := true
+		saveOK, saveNames := ok, names
+		ok = true
+		names = map[string]bool{"nil": true, "true": true, "false": true, "SOH": true, "nilbytes": true}
+		for _, q := range sf.Params {
+			names[q.Name] = true
+		}
+		walk(sf.Body, depth+1)
+		inner = ok
+		ok, names = saveOK, saveNames
+		return inner
+	}
+	walk = func(n ast.Node, depth int) {
+		ast.Inspect(n, func(m ast.Node) bool {
+			switch x := m.(type) {
+			case *ast.SelectorExpr:
+				ok = false
+				return false
+			case *ast.CallExpr:
+				id, isId := x.Fun.(*ast.Ident)
+				if !isId {
+					ok = false
+					return false
+				}
+				if !pureBuiltins[id.Name] && !pureSpec(id.Name, depth) {
+					ok = false
+					return false
+				}
+				for _, a := range x.Args {
+					walk(a, depth)
+				}
+				return false
+			case *ast.Ident:
+				if !names[x.Name] {
+					ok = false
+				}
+			}
+			return ok
+		})
+	}
+	walk(o.Clause, 0)
+	return ok
 }
